@@ -385,7 +385,10 @@ impl<'a> Gen<'a> {
             0 => r.is_ok(),
             1 => *r == Err(Error::IoError),
             2 => *r == Err(Error::Unsupported),
-            _ => r.is_err(),
+            3 => r.is_err(),
+            // no defined meaning: an error, and not the one that tells the caller to poll again — the
+            // completion has been consumed, the request is over
+            _ => r.is_err() && *r != Err(Error::NotReady),
         };
         if !good {
             self.c.fail(format!("{}: device status {} reported to the caller as {}", what, status, res_name(r)));
